@@ -156,9 +156,95 @@ pub struct Run {
     pub threads: usize,
 }
 
+/// Memory-safety tripwire (DESIGN 2.6): the exploration runs in a child process. The checked build turns
+/// an out-of-bounds unchecked access on a real container into an abort (std's "unsafe precondition
+/// violated") instead of silent undefined behaviour; an abort / fatal signal of the child is reported as
+/// a violation. To name the case, the child is run once more single-threaded in trace mode, where every
+/// state is logged before it is executed; the last logged state is the replay.
+fn supervise(property: &'static str) {
+    use std::process::{Command, Stdio};
+    if std::env::var("MC_CHILD").is_ok() {
+        return;
+    }
+    let exe = match std::env::current_exe() {
+        Ok(e) => e,
+        Err(_) => return,
+    };
+    let args: Vec<String> = std::env::args().skip(1).collect();
+    let run_child = |trace: Option<&str>| {
+        let mut c = Command::new(&exe);
+        c.args(&args).env("MC_CHILD", "1").stdin(Stdio::null());
+        if let Some(t) = trace {
+            c.env("MC_TRACE", t).env("VERIF_THREADS", "1").stdout(Stdio::null());
+        }
+        c.stderr(Stdio::piped());
+        let out = c.spawn().and_then(|ch| ch.wait_with_output());
+        out.ok()
+    };
+    let out = match run_child(None) {
+        Some(o) => o,
+        None => return, // cannot spawn: run in-process
+    };
+    let stderr = String::from_utf8_lossy(&out.stderr).to_string();
+    eprint!("{stderr}");
+    if let Some(code) = out.status.code() {
+        std::process::exit(code);
+    }
+    // killed by a signal (SIGABRT / SIGSEGV / SIGILL ...)
+    let tail: Vec<&str> = stderr.lines().rev().take(6).collect::<Vec<_>>().into_iter().rev().collect();
+    let trace_path = format!("{VERIF_ROOT}/target/trace-{property}.txt");
+    let _ = std::fs::remove_file(&trace_path);
+    let replaying = args.iter().any(|a| a == "--replay");
+    let traced = if replaying { None } else { run_child(Some(&trace_path)) };
+    let last = std::fs::read_to_string(&trace_path).unwrap_or_default();
+    let last = last.trim_end_matches(['\0', ' ', '\n']).to_string();
+    let case: Value = serde_json::from_str(&last).unwrap_or_else(|_| json!({"trace": last}));
+    let reproduced = traced.map_or(false, |t| t.status.code().is_none());
+    let dir = format!("{VERIF_ROOT}/replays/{property}");
+    let _ = std::fs::create_dir_all(&dir);
+    let path = if replaying { args.iter().skip_while(|a| *a != "--replay").nth(1).cloned().unwrap_or_default() } else { format!("{dir}/abort-{}.json", short_hash(&last)) };
+    if !replaying {
+        let body = json!({"property": property, "entry": "process abort (memory-safety tripwire)", "finding_class": Value::Null,
+            "case": case, "expected": "the library call returns or panics cleanly",
+            "got": format!("the process was killed by a fatal signal ({:?}); stderr tail: {}", out.status, tail.join(" | ")),
+            "abort_reproduced_in_trace_mode": reproduced});
+        let _ = std::fs::write(&path, serde_json::to_string_pretty(&body).unwrap());
+    }
+    println!("VIOLATION property={property} replay={path}");
+    println!("  entry=process abort (memory-safety tripwire) status={:?} last_state={} stderr={}", out.status, truncate(&last, 300), truncate(&tail.join(" | "), 300));
+    std::process::exit(1);
+}
+
+/// Trace mode (see `supervise`): record the state about to be executed.
+pub fn trace_state(f: impl FnOnce() -> Value) {
+    use std::io::{Seek, SeekFrom, Write};
+    thread_local! {
+        static TRACE: std::cell::RefCell<Option<Option<std::fs::File>>> = const { std::cell::RefCell::new(None) };
+    }
+    TRACE.with(|t| {
+        let mut t = t.borrow_mut();
+        if t.is_none() {
+            *t = Some(std::env::var("MC_TRACE").ok().and_then(|p| std::fs::OpenOptions::new().create(true).write(true).truncate(true).open(p).ok()));
+        }
+        if let Some(Some(file)) = t.as_mut() {
+            let mut line = f().to_string();
+            line.truncate(4000);
+            let pad = 4096usize.saturating_sub(line.len());
+            let _ = file.seek(SeekFrom::Start(0));
+            let _ = file.write_all(line.as_bytes());
+            let _ = file.write_all(" ".repeat(pad).as_bytes());
+            let _ = file.flush();
+        }
+    });
+}
+pub fn tracing() -> bool {
+    std::env::var("MC_TRACE").is_ok()
+}
+
 impl Run {
     /// Parses `<bin> [quick|thorough] [--replay <path>]`, env VERIF_TIER / VERIF_SEED.
     pub fn from_args(property: &'static str) -> Run {
+        supervise(property);
         silence_panics();
         let args: Vec<String> = std::env::args().skip(1).collect();
         let mut tier = match std::env::var("VERIF_TIER").ok().as_deref() {
